@@ -14,7 +14,7 @@ from checks import pairwise
 from vlib import core
 
 THEOREMS = ["C19_normal_form", "C19_fields", "C19_reject_iff", "C19_paths", "C19_not_found", "C19_spec", "C19_section_text", "C19_prefix_irrelevant",
-            "C19_crlf_prefix", "C19_old_refuted"]
+            "C19_crlf_prefix", "C19_mention_old_refuted", "C19_old_refuted"]
 PROPS = "theories/Props/C19.v"
 REGISTRY = {
     "level": "proof",
@@ -156,7 +156,7 @@ def render(cfg):
     elif tx["mention"] == "comment_end":
         head += "# the translations are configured in [package.metadata.leptos-i18n]\n"
     elif tx["mention"] == "string":
-        head = head.replace('version = "0.1.0"\n', 'version = "0.1.0"\ndescription = "see [package.metadata.leptos-i18n]"\n', 1)
+        head = head.replace('[package]\n', '[package]\ndescription = "see [package.metadata.leptos-i18n]"\n', 1)
     name = "[package.metadata.leptos_i18n]" if cfg["malformed"] == "no_section" else "[package.metadata.leptos-i18n]"
     hdr = ("  " if tx["indent"] else "") + name + {"none": "", "spaces": "   ", "tab": "\t", "comment": " # i18n"}[tx["trail"]]
     text = head + hdr + "\n" + "\n".join(fields) + "\n" + ("" if cfg["malformed"] == "no_section" else table) + cfg["after"]
@@ -188,9 +188,13 @@ def gen_text(rng):
           "head": pick([("std", .5), ("none", .1), ("one", .1), ("two", .15), ("many", .15)]),
           "final_nl": rng.random() >= 0.15, "bom": rng.random() < 0.1,
           "trail": pick([("none", .55), ("spaces", .15), ("tab", .15), ("comment", .15)]),
-          "indent": rng.random() < 0.1, "mention": "none"}
+          "indent": rng.random() < 0.1,
+          "mention": pick([("none", .82), ("comment", .06), ("comment_end", .06), ("string", .06)])}
     if tx["eol"] == "lone_cr" and tx["head"] == "none":
         tx["eol"] = "lf"
+    # a mention is a line (or a string of the [package] table) before the header
+    if tx["mention"] != "none" and (tx["head"] == "none" or (tx["mention"] == "string" and tx["head"] == "one")):
+        tx["mention"] = "none"
     return tx
 
 
@@ -351,17 +355,15 @@ def run(ctx):
     for i in range(n):
         fmt = "json" if i % 2 == 0 else rng.choice(["yaml", "json5"])
         cases.append({"kind": "random", "fmt": fmt, "cfg": gen_cfg(rng)})
-    # the header string mentioned earlier in the manifest (in a comment / in a string of another table): a separate
-    # class, see is_mention
+    # the header string mentioned before the section (comment / string of [package]) on otherwise plain manifests
     for mention in ("comment", "comment_end", "string"):
-        for base in corpus()[4:6] + [gen_cfg(rng, force={"missing": None, "malformed": None}) for _ in range(2)]:
-            cfg = dict(base, text=dict(TEXT_DEFAULT, mention=mention), before="")
-            cases.append({"kind": "mention", "fmt": "json", "cfg": cfg})
+        for base in corpus()[4:6]:
+            cases.append({"kind": "corpus", "fmt": "json", "cfg": dict(base, text=dict(TEXT_DEFAULT, mention=mention))})
     for c in cases:
         c["files"] = layout(rng, c["cfg"], c["fmt"])
     # pairwise coverage of the quantifier's dimensions; directed cases fill the empty feasible cells
     table = pairwise.Table(cov_cfg.DIMS, cov_cfg.infeasible)
-    pairwise.add_all(table, [o for c in cases if c["kind"] != "mention" for o in cov_cfg.tags(c["cfg"], c["fmt"], c["files"])])
+    pairwise.add_all(table, [o for c in cases for o in cov_cfg.tags(c["cfg"], c["fmt"], c["files"])])
     gaps_before = ["%s=%s x %s=%s" % g for g in table.gaps()]
     directed = pairwise.greedy(table, rng, cov_cfg.draw, lambda sc: cov_cfg.build(rng, sc),
                                lambda c: cov_cfg.tags(c["cfg"], c["fmt"], c["files"]), max_tries=20000, max_keep=600)
@@ -396,9 +398,8 @@ def run(ctx):
     codes = core.coq_eval(ctx, "c19", PRE, items, "check")
     shutil.rmtree(root, ignore_errors=True)
     # `inherits` spelled as the sub-table [package.metadata.leptos-i18n.inherits] is a separate class (see is_subtable)
-    bad = [m for m, c in zip(metas, codes) if c == 3 and not is_subtable(m) and not is_mention(m)]
-    dis = [m for m, c in zip(metas, codes) if c == 2 and not is_subtable(m) and not is_mention(m)]
-    mention_bad = [m for m, c in zip(metas, codes) if c in (2, 3) and is_mention(m)]
+    bad = [m for m, c in zip(metas, codes) if c == 3 and not is_subtable(m)]
+    dis = [m for m, c in zip(metas, codes) if c == 2 and not is_subtable(m)]
     sub_bad = [m for m, c in zip(metas, codes) if c in (2, 3) and is_subtable(m)]
     skipped = [m for m, c in zip(metas, codes) if c == 1]
     known = [f for f in core.load_known("C19") if f.get("status") == "known"]
@@ -421,10 +422,6 @@ def run(ctx):
                       "correspondence Parser/Cfg.v (load) vs leptos_i18n_parser::parse_locales_raw",
             "first_disagreeing_input": d0 and {"cargo_toml": d0["cargo_toml"], "format": d0["fmt"], "impl_output": d0["line"]},
             "disagreements": len(dis)}, no_input=True)
-    if mention_bad:
-        hit = [f for f in known if f.get("id") == "C19-header-mention"]
-        if hit:
-            core.known_finding(ctx, hit[0], hit[0].get("line", "C19-header-mention"))
     if sub_bad:
         sub_bad.sort(key=lambda m: (len(m["cargo_toml"]), len(m["existing"])))
         hit = [f for f in known if f.get("id") == "C19-inherits-subtable"]
@@ -463,20 +460,10 @@ def run(ctx):
         "skipped_outside_model": len(skipped), "hangs": sum(1 for m in metas if m["tag"] == "hang"),
         "not_run_after_hangs": not_run, "inherits_subtable_cases_diverging": len(sub_bad),
         "inherits_subtable_cases": sum(1 for m in metas if is_subtable(m)),
-        "header_mention_cases": sum(1 for m in metas if is_mention(m)), "header_mention_cases_diverging": len(mention_bad),
-        "header_mention_sample": [{"cargo_toml": m["cargo_toml"], "impl_output": m["line"].replace(m["dir"], "<dir>")}
-                                  for m in mention_bad[:3]],
         "input_distribution": hist, "audit_problems": problems, "pairwise": pw,
     }, assumptions=[
         "the toml crate and the textual section split are exercised through generated manifests, not modelled",
         "names contain no '.' or '/' (else the case is counted as skipped)"])
-
-
-def is_mention(m):
-    """the header string occurs in the manifest before the section header (comment or string): ConfigFile::new cuts at
-    the FIRST occurrence (split_once).  Reported only when known_findings.json lists C19-header-mention; otherwise the
-    outcome is recorded in the evidence (header_mention_cases_diverging) without a verdict line."""
-    return (m["cfg"].get("text") or {}).get("mention", "none") != "none"
 
 
 def is_subtable(m):
